@@ -5,6 +5,21 @@ ROOT = os.path.dirname(os.path.dirname(os.path.abspath(__file__)))
 PROPS = [json.loads(l)["id"] for l in open(os.path.join(ROOT, "properties.jsonl"))]
 
 CLAIMED = {
+ "C13": dict(
+   text="Coq theorems (Props/C13.v, 21 theorems) over the Gallina model of dsolve / fdsolve (argabsmax with last-maximum tie-breaking, row and element swaps, the elimination loops with explicit zeroing, back substitution, the least-squares branch via A^T A and A^T b): over an ARBITRARY commutative ring with a partial inverse on units and for any pivot comparison, the returned vector satisfies A x = b and is the unique solution whenever every selected pivot is a unit; with allow_lsq it uniquely satisfies the normal equations; permuting the rows of (A|b) does not change the answer; non-square without lsq is refused. Instantiated at R (where 'non-singular' — trivial kernel — is PROVED to imply the pivot hypothesis for the code's |.| comparison) and at first- and second-order dual-number rings (value + derivative per name + half-Hessian per pair, truncated product), where the ring equation IS the statement about the value and every first and second derivative carried by A and b; the pivot hypothesis on a dual-valued matrix is the one on its real-part matrix; fdsolve (float matrix, generic rhs) likewise. Tied to linalg_dual.rs / linalg_f64.rs by a seeded differential run (sizes 1-8, tall to 12x6, f64/Dual/Dual2 in all mixes, pivot-forcing sparsity patterns, ties, singular and mis-shaped inputs) plus residual and row-permutation oracles on the real code.",
+   note="Floating-point rounding is in the trusted base (theorems over exact rings). The dual-number ring instances are the abstract value/derivative-per-name structures; their tie to the concrete list-based Dual/Dual2 of the code is the refinement proved for C03 (Proofs/DualP.v, Dual2P.v). Axioms: stdlib real-number axioms, functional extensionality, and constructive_indefinite_description only through the NumR instance. NaN entries (argabsmax unwraps partial_cmp) are outside 'well-conditioned' and not generated.",
+   tech="Coq proof (invariant of forward elimination = solution-set equivalence + zero lower-left block + unit diagonal, over an abstract ring class; instantiation at R and dual-number rings) + seeded model-vs-code correspondence with residual/permutation oracles",
+   ref="DESIGN.md §4 C13"),
+ "C18": dict(
+   text="Coq theorems (Props/C18.v) over the Gallina model of set_order / set_order_clone, the From conversions and the nine-arm operator tables of Number: raising a float attaches exactly the requested names (each once) with unit sensitivity and, at second order, a zero Hessian; first->second adds a zero Hessian; second->first drops only the Hessian; no conversion changes the value; every operator on the container computes with the contained types' operator in the seven same-kind/float cells and is refused (panic) in exactly the two Dual-with-Dual2 cells, for + - * / % == < <=. Tied to dual_ops/*.rs by an EXHAUSTIVE run over kind pairings x operators x orders on every run, outcome class compared exactly.",
+   note="The table theorems hold by computation on the model; what ties the model to the code is the exhaustive correspondence (3x3 kinds x 10 binary operators, both float positions, 13 unary operators, 3x3 order conversions, From, Sum).",
+   tech="Coq proof (case analysis / computation + lookup lemmas for the unit-sensitivity statement) + exhaustive model-vs-code table enumeration",
+   ref="DESIGN.md §4 C18"),
+ "C19": dict(
+   text="Coq theorems (Props/C19.v): ordering of Dual/Dual2 (and through Number, floats in either position) is the float comparison of the values; abs is the identity for positive values and flips value and all derivatives (and the Hessian) together for negative ones; a % b equals a - trunc(a/b)*b in value, every derivative and every Hessian entry, for any layouts, and the float-divisor / float-dividend forms equal promotion to a constant (value = fmod); Sum equals adding left to right from the variable-free zero, value and derivatives adding up; zero and one are neutral; is_zero is equality with zero. Tied to dual_ops/{ord,signed,rem,sum,zero,one}.rs by a seeded differential run with negative values, negative divisors, signed zeros and both float positions, fmod computed exactly.",
+   note="Theorems over R (fmod/trunc as real functions). == between a dual and a float is NOT value-only (it is C03's value-and-every-derivative equality); the check does not demand otherwise.",
+   tech="Coq proof (refinement lemmas of C03 + case analysis) + seeded model-vs-code correspondence",
+   ref="DESIGN.md §4 C19"),
  "C03": dict(
    text="Coq theorems (Props/C03.v) over the Gallina model of Vars::vars_cmp / to_new_vars / to_union_vars / to_combined_vars and of +,-,*,/,% and == on Dual and Dual2: for ANY two well-formed operands over ANY ordered variable lists (permutations, subsets, supersets, disjoint, overlapping, empty), shared or unshared storage, the result is well-formed (duplicate-free names, derivative arrays of matching shape), carries exactly the union of the operands' names, and its value, derivative per name and half-Hessian per pair of names are the textbook functions of the operands' (refinement); hence operands equal by value and per-name derivatives give equal results whatever their layouts (layout independence); == holds exactly when value and every per-name derivative agree (missing variable = zero derivative). Tied to rust/dual by an EXHAUSTIVE enumeration of layouts on a 3-letter alphabet x operators x kinds on every run.",
    note="Theorems over R (stdlib real axioms through the NumR instance). Arc::ptr_eq is modelled by a boolean with the side condition that sharing implies equal lists; IndexSet by duplicate-free lists. For Dual2 division the refinement theorem states well-formedness and the name union; its value/derivative formulas are covered by the layout-independence theorem (d2div_spec).",
